@@ -42,13 +42,15 @@ VARIABLES n,        \* n[o]       length of object o, -1 = object does not exist
           taint     \* taint[o]: zero positions whose scalar is possibly shared
 
 (* ------------------------------------------------------------ helpers *)
+(* TLCEval forces TLC to build a function explicitly; without it chains of  *)
+(* lazily applied function constructors are re-evaluated exponentially.     *)
 NZ(c) == {i \in DOMAIN c : c[i] # 0}
 MinGE(T, x) == LET C == {k \in T : k >= x} IN IF C = {} THEN Done ELSE Min(C)
 MinGT(T, x) == MinGE(T, x + 1)
 RECURSIVE Asc(_)
 Asc(S) == IF S = {} THEN <<>> ELSE LET m == Min(S) IN <<m>> \o Asc(S \ {m})
-SeqOf(c, m) == IF m <= 0 THEN <<>> ELSE [k \in 1..m |-> c[k-1]]
-FunOf(s) == [i \in Idx(Len(s)) |-> s[i+1]]
+SeqOf(c, m) == IF m <= 0 THEN <<>> ELSE TLCEval([k \in 1..m |-> c[k-1]])
+FunOf(s) == TLCEval([i \in Idx(Len(s)) |-> s[i+1]])
 MapSeq(s, F(_)) == IF Len(s) = 0 THEN <<>> ELSE [k \in 1..Len(s) |-> F(s[k])]
 
 (* stable insertion sort of a sequence of pairs <<key, value>> by value *)
@@ -63,9 +65,9 @@ StableSortPairs(acc, rest, rev) ==
 
 (* ------------------------------------------------ what operations MEAN *)
 CWrite(c, i, x)   == [c EXCEPT ![i] = x]
-CReset(c)         == [i \in DOMAIN c |-> 0]
+CReset(c)         == TLCEval([i \in DOMAIN c |-> 0])
 CSwap(c, i, j)    == [c EXCEPT ![i] = c[j], ![j] = c[i]]
-CReverse(c, m)    == [i \in Idx(m) |-> c[m - 1 - i]]
+CReverse(c, m)    == TLCEval([i \in Idx(m) |-> c[m - 1 - i]])
 RECURSIVE CPermuteFrom(_, _, _, _)
 CPermuteFrom(c, pi, i, m) ==          \* pi: sequence 1..m of positions 0..m-1
   IF i >= m THEN c
@@ -73,14 +75,14 @@ CPermuteFrom(c, pi, i, m) ==          \* pi: sequence 1..m of positions 0..m-1
   ELSE CPermuteFrom(c, pi, i + 1, m)
 CPermute(c, pi, m) == CPermuteFrom(c, pi, 0, m)
 CSort(c, m, rev)  == LET s == StableSortPairs(<<>>, SeqOf([i \in Idx(m) |-> <<i, c[i]>>], m), rev)
-                     IN [i \in Idx(m) |-> s[i+1][2]]
+                     IN TLCEval([i \in Idx(m) |-> s[i+1][2]])
 (* a sparse matrix stores position (r, q) of a rows x cols matrix at r * cols + q of one sparse vector *)
-CSwapRows(c, cols, i, j) == [p \in DOMAIN c |-> LET r == p \div cols  q == p % cols
-                                               IN IF r = i THEN c[j * cols + q] ELSE IF r = j THEN c[i * cols + q] ELSE c[p]]
-CSwapCols(c, cols, i, j) == [p \in DOMAIN c |-> LET r == p \div cols  q == p % cols
-                                               IN IF q = i THEN c[r * cols + j] ELSE IF q = j THEN c[r * cols + i] ELSE c[p]]
-CSlice(c, a, b)   == [i \in Idx(b - a) |-> c[a + i]]
-CAppend(c, m, w)  == [i \in Idx(m + Len(w)) |-> IF i < m THEN c[i] ELSE w[i - m + 1]]
+CSwapRows(c, cols, i, j) == TLCEval([p \in DOMAIN c |-> LET r == p \div cols  q == p % cols
+                                               IN IF r = i THEN c[j * cols + q] ELSE IF r = j THEN c[i * cols + q] ELSE c[p]])
+CSwapCols(c, cols, i, j) == TLCEval([p \in DOMAIN c |-> LET r == p \div cols  q == p % cols
+                                               IN IF q = i THEN c[r * cols + j] ELSE IF q = j THEN c[r * cols + i] ELSE c[p]])
+CSlice(c, a, b)   == TLCEval([i \in Idx(b - a) |-> c[a + i]])
+CAppend(c, m, w)  == TLCEval([i \in Idx(m + Len(w)) |-> IF i < m THEN c[i] ELSE w[i - m + 1]])
 
 (* element-wise arithmetic with the receiver as first operand:            *)
 (*   v.VaddV(v,w) v.VsubV(v,w) v.VmulV(v,w) v.Set(w)                       *)
@@ -101,8 +103,8 @@ ScalarOps == {"vmuls", "vadds", "vsubs", "vdivs"}
 SelfOps   == {"vsubself", "vmulself"}
 VecOps    == {"vaddv", "vsubv", "vmulv", "set"}
 (* w: operand as a function on the same domain (for scalar ops the constant function) *)
-CArith(name, c, w) == [i \in DOMAIN c |-> AOp(name, c[i], w[i])]
-ConstFun(m, x) == [i \in Idx(m) |-> x]
+CArith(name, c, w) == TLCEval([i \in DOMAIN c |-> AOp(name, c[i], w[i])])
+ConstFun(m, x) == TLCEval([i \in Idx(m) |-> x])
 
 (* iteration: exactly the non-zero positions, ascending, with their values *)
 CWalk(c) == LET a == Asc(NZ(c)) IN IF a = <<>> THEN <<>> ELSE [k \in 1..Len(a) |-> <<a[k], c[a[k]]>>]
@@ -119,7 +121,7 @@ PartnerOf(S, o, q) ==   \* the position of object o sharing with position q of t
   LET C == {pr[o] : pr \in {r \in S : r[3 - o] = q}}
   IN IF C = {} THEN Done ELSE CHOOSE p \in C : TRUE
 Through(S, o, f, g) ==  \* g (other object) follows f (object o) at shared positions
-  [q \in DOMAIN g |-> LET p == PartnerOf(S, o, q) IN IF p = Done THEN g[q] ELSE f[p]]
+  TLCEval([q \in DOMAIN g |-> LET p == PartnerOf(S, o, q) IN IF p = Done THEN g[q] ELSE f[p]])
 RenamePairs(S, o, f) == {IF o = 1 THEN <<f[pr[1]], pr[2]>> ELSE <<pr[1], f[pr[2]]>> : pr \in S}
 
 (* ------------------------------------------------------ contract steps *)
@@ -154,14 +156,14 @@ ReplaceStepC(Objs, o, nn, nc) ==
   /\ taint' = [oo \in Objs |-> {}]
 (* where the element of position i goes under Sort (stable among equal values) *)
 CSortMap(c, m, rev) == LET s == StableSortPairs(<<>>, SeqOf([i \in Idx(m) |-> <<i, c[i]>>], m), rev)
-                       IN [i \in Idx(m) |-> (CHOOSE t \in 1..m : s[t][1] = i) - 1]
+                       IN TLCEval([i \in Idx(m) |-> (CHOOSE t \in 1..m : s[t][1] = i) - 1])
 RECURSIVE CPermuteMapFrom(_, _, _, _)
 CPermuteMapFrom(f, pi, i, m) ==
   IF i >= m THEN f
   ELSE IF pi[i+1] > i
-       THEN CPermuteMapFrom([k \in DOMAIN f |-> IF f[k] = i THEN pi[i+1] ELSE IF f[k] = pi[i+1] THEN i ELSE f[k]], pi, i + 1, m)
+       THEN CPermuteMapFrom(TLCEval([k \in DOMAIN f |-> IF f[k] = i THEN pi[i+1] ELSE IF f[k] = pi[i+1] THEN i ELSE f[k]]), pi, i + 1, m)
        ELSE CPermuteMapFrom(f, pi, i + 1, m)
-CPermuteMap(pi, m) == CPermuteMapFrom([k \in Idx(m) |-> k], pi, 0, m)
+CPermuteMap(pi, m) == CPermuteMapFrom(TLCEval([k \in Idx(m) |-> k]), pi, 0, m)
 
 IterDead == [live |-> FALSE, o |-> 1, pos |-> Done]
 (* iterators bound to an object that is replaced are abandoned *)
